@@ -140,16 +140,24 @@ func argType(call ssa.CallInstruction, i int) string {
 
 // underIface strips MakeInterface/ChangeInterface conversions.
 func underIface(v ssa.Value) ssa.Value {
-	for {
+	for i := 0; i < 16; i++ {
 		switch x := v.(type) {
 		case *ssa.MakeInterface:
 			v = x.X
 		case *ssa.ChangeInterface:
 			v = x.X
+		case *ssa.Phi:
+			// a result temporary of an inlined helper: the value or a zero constant
+			if l := leaves(x); len(l) == 1 && l[0] != v {
+				v = l[0]
+				continue
+			}
+			return v
 		default:
 			return v
 		}
 	}
+	return v
 }
 
 // okEdges returns the ok edges of a call's error result; when the error is
@@ -262,4 +270,93 @@ func sole(v ssa.Value) ssa.Value {
 		return l[0]
 	}
 	return v
+}
+
+// cmpForm is a comparison found in a function, normalised so that `holds` are
+// the edges on which the relation the rule asked for is true and `fails` those
+// on which it is false, whichever of == / != the source uses. Val is the SSA
+// boolean that is true when the source comparison is true; Pos tells whether
+// that boolean means "relation holds".
+type cmpForm struct {
+	Bin   *ssa.BinOp
+	Holds []cfgx.Edge
+	Fails []cfgx.Edge
+	Pos   bool
+}
+
+// findCmps lists the ==/!= comparisons for which match(x, y) (operands in either
+// order) is true; wantEq says whether the relation of interest is equality.
+func findCmps(fn *ssa.Function, wantEq bool, match func(x, y ssa.Value) bool) []cmpForm {
+	var out []cmpForm
+	for _, b := range fn.Blocks {
+		for _, in := range b.Instrs {
+			bo, ok := in.(*ssa.BinOp)
+			if !ok || (bo.Op != token.EQL && bo.Op != token.NEQ) {
+				continue
+			}
+			if !match(bo.X, bo.Y) && !match(bo.Y, bo.X) {
+				continue
+			}
+			t, f := cfgx.CondEdges(bo)
+			pos := (bo.Op == token.EQL) == wantEq
+			if !pos {
+				t, f = f, t
+			}
+			out = append(out, cmpForm{Bin: bo, Holds: t, Fails: f, Pos: pos})
+		}
+	}
+	return out
+}
+
+// conjFalseEdges: edges on which the conjunction of the given relations is
+// known false: a conjunct fails, or a boolean that is an and-combination of
+// (positively used) conjuncts only — `m := a != nil && *a == X` — is false.
+func conjFalseEdges(fn *ssa.Function, conj []cmpForm) []cfgx.Edge {
+	var out []cfgx.Edge
+	var pos []ssa.Value
+	for _, c := range conj {
+		if c.Pos {
+			pos = append(pos, c.Bin)
+		} else {
+			out = append(out, c.Fails...)
+		}
+	}
+	return append(out, boolConjFalseEdges(fn, pos)...)
+}
+
+// boolConjFalseEdges: edges on which one of the boolean values is known false,
+// or a boolean that and-combines only these values is false.
+func boolConjFalseEdges(fn *ssa.Function, vals []ssa.Value) []cfgx.Edge {
+	var out []cfgx.Edge
+	in := map[ssa.Value]bool{}
+	for _, v := range vals {
+		_, f := cfgx.CondEdges(v)
+		out = append(out, f...)
+		in[v] = true
+	}
+	for changed := true; changed; {
+		changed = false
+		for _, b := range fn.Blocks {
+			for _, ins := range b.Instrs {
+				phi, ok := ins.(*ssa.Phi)
+				if !ok || in[phi] {
+					continue
+				}
+				ls := leaves(phi) // false constants are dropped
+				all := len(ls) > 0
+				for _, l := range ls {
+					if !in[l] {
+						all = false
+					}
+				}
+				if all {
+					in[phi] = true
+					changed = true
+					_, f := cfgx.CondEdges(phi)
+					out = append(out, f...)
+				}
+			}
+		}
+	}
+	return out
 }
